@@ -1,7 +1,118 @@
 import Driver.Proto
-/- driver commands of area `ninja` (stub until the area is built) -/
-namespace Driver.Ninja
+import MesonModel.Ninja.Manifest
+import MesonModel.Ninja.Emit
+/-
+driver commands of area `ninja`
 
-def handle (cmd : String) (fs : List String) : String := "bad-op"
+  parse <text>                         -> OK|R:<rules>|D:<defaults>|E:<edge>|E:<edge>…   (canonical dump, edges in file order)
+                                          edge = rule;outs;implOuts;ins;implIns;orderIns;vals;k=v&k=v
+                                          ERR:Parse:<kind>:<chars-left> / ERR:Load:<kind>:<arg>
+  leaves <text>                        -> OK|<inputs that no statement produces>  (what the caller must stat)
+  check <text>|<fs>|<reqs>             -> verdict of the verified checker on the manifest text
+  checkg <rules>|<edges>|<fs>|<reqs>   -> the same on a graph given directly; edges `rule;outs;ins;vals` joined by `/`
+  canon <path>                         -> canonicalised path
+  emit <ops>                           -> the emission state machine (see MesonModel/Ninja/Emit.lean)
+
+lists are `,`-joined encoded strings; reqs = root,target,root,target,…
+-/
+namespace Driver.Ninja
+open MesonModel.Ninja
+
+def encL (l : List Str) : String := encodeStrList l
+
+def dumpEdge (b : BuildStmt) : String :=
+  ";".intercalate [encodeStr b.rule, encL b.outs, encL b.implOuts, encL b.ins, encL b.implIns, encL b.orderIns,
+    encL b.vals, "&".intercalate (b.binds.map (fun kv => encodeStr kv.1 ++ "=" ++ encodeStr kv.2))]
+
+def loadText (t : Str) : Except String Manifest :=
+  match parse t with
+  | .error (e, n) => .error s!"ERR:Parse:{e.name}:{n}"
+  | .ok ss =>
+    match load ss with
+    | .error e => .error s!"ERR:Load:{e.name}:{encodeStr e.arg}"
+    | .ok m => .ok m
+
+def pairs : List Str → List (Str × Str)
+  | a :: b :: r => (a, b) :: pairs r
+  | _ => []
+
+def verdict (g : Graph Str) (fs : List Str) (reqs : List (Str × Str)) : String :=
+  let es := g.edges
+  let r1 := rulesDefined g
+  let r2 := outputsDisjoint es
+  let r3 := acyclicB es
+  let r4 := closedB fs es
+  let r5 := reqsOk es reqs
+  let wf := wellFormed g fs reqs
+  let dup := match firstDup (allOuts es) with | some d => encodeStr d | none => ""
+  let missing := if r4 then [] else (missingInputs fs es).eraseDups
+  let unreached := if r5 then [] else
+    (reqs.filter (fun rt => !decide (rt.2 ∈ reachSet es rt.1))).map (fun rt => rt.1 ++ '>' :: rt.2)
+  let stuck := if r3 then 0 else (kahnStuck es.length es).length
+  let badrules := (es.filter (fun e => !ruleOk g.rules e)).map (·.rule) |>.eraseDups
+  s!"OK|wf={boolStr wf}|rules={boolStr r1}|unique={boolStr r2}|acyclic={boolStr r3}|closed={boolStr r4}|reach={boolStr r5}" ++
+  s!"|dup={dup}|missing={encL missing}|unreached={encL unreached}|stuck={stuck}|badrules={encL badrules}" ++
+  s!"|edges={es.length}"
+
+def decodeEdge (s : String) : Edge Str :=
+  match s.splitOn ";" with
+  | [r, o, i, v] => { rule := decodeStr r, outs := decodeStrList o, ins := decodeStrList i, vals := decodeStrList v }
+  | [r, o, i] => { rule := decodeStr r, outs := decodeStrList o, ins := decodeStrList i }
+  | _ => { rule := [], outs := [], ins := [] }
+
+def decodeOp (s : String) : Option Emit.Op :=
+  match s.splitOn ";" with
+  | ["R", n, rsp] => some (.addRule (decodeStr n) (rsp == "1"))
+  | ["B", o, io, rn, i, d, od, long] =>
+    some (.addBuild (decodeStrList o) (decodeStrList io) (decodeStr rn) (decodeStrList i) (decodeStrList d)
+      (decodeStrList od) (long == "1"))
+  | _ => none
+
+def stepAll : List Emit.Op → Emit.State → List Bool → Emit.State × List Bool
+  | [], st, acc => (st, acc.reverse)
+  | op :: r, st, acc => let (st', ok) := Emit.step st op; stepAll r st' (ok :: acc)
+
+def dumpOut (b : Emit.OutBuild) : String :=
+  "B:" ++ ";".intercalate [encL b.outs, encL b.implOuts, encodeStr b.rule, encL b.ins, encL b.deps, encL b.orderdeps]
+
+/-- emit <op>/<op>/…   op = R;name;rspable | B;outs;implOuts;rule;ins;deps;orderdeps;long -/
+def emitCmd (ops : String) : String :=
+  let parts := if ops.trimAscii.isEmpty then [] else ops.splitOn "/"
+  match parts.mapM decodeOp with
+  | none => "bad-op"
+  | some os =>
+    let (st, oks) := stepAll os {} []
+    let steps := String.join (oks.map boolStr)
+    match Emit.write st with
+    | .error .unmappedRule => s!"ERR:UnmappedRule|steps={steps}"
+    | .error .multipleProducers => s!"ERR:MultipleProducers|steps={steps}"
+    | .error .newline => s!"ERR:Newline|steps={steps}"
+    | .ok o => "|".intercalate ([s!"OK|steps={steps}", "R:" ++ encL o.rules] ++ o.builds.map dumpOut)
+
+def handle (cmd : String) (fs : List String) : String :=
+  match cmd, fs with
+  | "parse", [t] =>
+    match loadText (decodeStr t) with
+    | .error e => e
+    | .ok m =>
+      "|".intercalate (["OK", "R:" ++ encL (m.rules.map (·.1)), "D:" ++ encL m.defaults] ++
+        m.builds.map (fun b => "E:" ++ dumpEdge b))
+  | "leaves", [t] =>
+    match loadText (decodeStr t) with
+    | .error e => e
+    | .ok m =>
+      let es := m.graph.edges
+      let outs := allOuts es
+      "OK|" ++ encL ((es.flatMap (fun e => e.ins ++ e.vals)).eraseDups.filter (fun i => !outs.contains i))
+  | "check", [t, f, r] =>
+    match loadText (decodeStr t) with
+    | .error e => e
+    | .ok m => verdict m.graph (decodeStrList f) (pairs (decodeStrList r))
+  | "checkg", [rules, edges, f, r] =>
+    let es := if edges.trimAscii.isEmpty then [] else (edges.splitOn "/").map decodeEdge
+    verdict { rules := decodeStrList rules, edges := es } (decodeStrList f) (pairs (decodeStrList r))
+  | "canon", [p] => encodeStr (canonPath (decodeStr p))
+  | "emit", [ops] => emitCmd ops
+  | _, _ => "bad-op"
 
 end Driver.Ninja
